@@ -6,6 +6,7 @@
 (*              list (GetAllEligibleValidatorsPublicKeys), the chances of those validators                  *)
 (*              (GetValidatorWithPublicKey(..).Chances()), GetChance(0), the consensus group size           *)
 (*   Compute -- ComputeConsensusGroup(randomness, round, shard, epoch) on a node: hash values consumed,     *)
+(*   ComputeC - the same call made concurrently with others on that node (no hash values attributable)     *)
 (*              resulting group / error                                                                     *)
 (* Strict mode (TraceNext): every event must be the corresponding action of ConsensusGroup.tla with the     *)
 (* logged result (drift when not: C15 does not prescribe the sampling algorithm).  The C15 invariants are   *)
@@ -46,7 +47,13 @@ TCompute ==
     /\ Compute(NodeOf(Ev.in), Ev.in.seed, Ev.in.epoch, Ev.in.shard, Ev.in.xs)
     /\ last'.err = Ev.out.err /\ last'.group = Ev.out.group
 
-TraceNext == TReset \/ TSelect \/ TConfig \/ TCompute
+\* a call made while other goroutines were calling ComputeConsensusGroup on the same node
+TComputeC ==
+    /\ IsEvent("ComputeC")
+    /\ \E fc \in BOOLEAN : ComputeConc(NodeOf(Ev.in), Ev.in.seed, Ev.in.epoch, Ev.in.shard, fc)
+    /\ last'.err = Ev.out.err /\ last'.group = Ev.out.group
+
+TraceNext == TReset \/ TSelect \/ TConfig \/ TCompute \/ TComputeC
 TraceSpec == TraceInit /\ [][TraceNext]_tvars
 
 (* observation only: the logged values are taken as they are, the bookkeeping (cfg, memo) is kept *)
@@ -55,7 +62,7 @@ OSelect ==
     /\ last' = UnitRec(Ev.in.w, Ev.in.size, Ev.out.sel, Ev.out.err)
     /\ UNCHANGED <<cfg, H, cache, memo>>
 OCompute ==
-    /\ IsEvent("Compute")
+    /\ (IsEvent("Compute") \/ IsEvent("ComputeC"))
     /\ LET n == NodeOf(Ev.in)
            key == <<Ev.in.class, Ev.in.seed, Ev.in.epoch, Ev.in.shard>>
            known == <<n, Ev.in.epoch, Ev.in.shard>> \in DOMAIN cfg
